@@ -273,6 +273,16 @@ def _compare(  # noqa: C901, PLR0912
             if not delete:
                 continue
 
+            if (
+                change.old.meta
+                and change.old.meta.isdir
+                and new is not None
+                and new.has_node(change.old.key)
+            ):
+                # the directory has no entry of its own in the target, but the
+                # target has entries below it: there is nothing to delete
+                continue
+
             _add_delete(change.old)
         elif change.typ == UNCHANGED:
             assert relink
